@@ -131,7 +131,14 @@ class C09(Check):
                         out.fail("wrong-exception", f"{kind}:probe:{exc_name(ex)}",
                                  f"{kind}: an in-scope reference was rejected with {exc_name(ex)}: {str(ex)[:300]}")
             for p in pos:
-                col = b.builder.colref(p["ref"])
+                try:
+                    col = b.builder.colref(p["ref"])
+                except BaseException as ex:  # noqa: BLE001
+                    reraise_control(ex)
+                    # the variable's own table does not know the name the reference model gives the column there
+                    out.fail("name", f"{kind}:lookup:{exc_name(ex)}",
+                             f"{kind}: {p['ref']} cannot be looked up on its own table: {exc_name(ex)}: {str(ex)[:200]}")
+                    continue
                 # derived[ref].name and `ref in derived`
                 try:
                     inn = col in tbl
